@@ -3,26 +3,59 @@
 package sr25519
 
 import (
+	"reflect"
+	"unsafe"
+
 	"github.com/oasisprotocol/curve25519-voi/curve"
+	"github.com/oasisprotocol/curve25519-voi/curve/scalar"
 	"github.com/oasisprotocol/curve25519-voi/primitives/merlin"
 )
 
 // Verification-only accessors for C12 (grafted by the /verif overlay; never part of the repository).
+//
+// Struct state is read through reflection BY FIELD NAME, so that this file keeps compiling when a field is
+// renamed, re-typed or removed; what cannot be read is reported in a `missing` list and the harness skips the
+// corresponding comparison.  The accessor that names an unexported FUNCTION lives in verif_export_c12_challenge.go.
 
-// VerifChallenge returns the canonical bytes of the verifier's challenge scalar.
-func VerifChallenge(pk *PublicKey, t *SigningTranscript, sig *Signature) []byte {
-	b := make([]byte, 32)
-	if err := deriveVerifyChallengeScalar(pk, t, sig).ToBytes(b); err != nil {
-		panic(err)
+func verifField(v reflect.Value, name string) (reflect.Value, bool) {
+	for v.IsValid() && (v.Kind() == reflect.Ptr || v.Kind() == reflect.Interface) {
+		if v.IsNil() {
+			return reflect.Value{}, false
+		}
+		v = v.Elem()
 	}
-	return b
+	if !v.IsValid() || v.Kind() != reflect.Struct {
+		return reflect.Value{}, false
+	}
+	f := v.FieldByName(name)
+	if !f.IsValid() {
+		return f, false
+	}
+	if f.CanAddr() {
+		f = reflect.NewAt(f.Type(), unsafe.Pointer(f.UnsafeAddr())).Elem()
+	}
+	return f, true
 }
 
-// VerifTranscript exposes the Merlin transcript of a signing transcript.
-func VerifTranscript(t *SigningTranscript) *merlin.Transcript { return t.t }
+func verifMerlin(x interface{}) *merlin.Transcript {
+	f, ok := verifField(reflect.ValueOf(x), "t")
+	if !ok || !f.CanInterface() {
+		return nil
+	}
+	switch t := f.Interface().(type) {
+	case *merlin.Transcript:
+		return t
+	case merlin.Transcript:
+		return &t
+	}
+	return nil
+}
 
-// VerifContextTranscript exposes the Merlin transcript of a signing context.
-func VerifContextTranscript(c *SigningContext) *merlin.Transcript { return c.t }
+// VerifTranscript exposes the Merlin transcript of a signing transcript (nil if it cannot be located).
+func VerifTranscript(t *SigningTranscript) *merlin.Transcript { return verifMerlin(t) }
+
+// VerifContextTranscript exposes the Merlin transcript of a signing context (nil if it cannot be located).
+func VerifContextTranscript(c *SigningContext) *merlin.Transcript { return verifMerlin(c) }
 
 // VerifBatchEntry is a copy of one batch entry (points in compressed form).
 type VerifBatchEntry struct {
@@ -34,30 +67,105 @@ type VerifBatchEntry struct {
 	WitnessBytes [16]byte
 }
 
-// VerifBatchState copies every field of a batch verifier.  The arithmetic
-// fields of an entry are only meaningful (and only read) when CanBeValid.
-func VerifBatchState(v *BatchVerifier) (entries []VerifBatchEntry, anyInvalid bool) {
-	for i := range v.entries {
-		e := &v.entries[i]
-		o := VerifBatchEntry{CanBeValid: e.canBeValid}
-		if e.canBeValid {
-			var c curve.CompressedRistretto
-			c.SetRistrettoPoint(&e.R)
-			copy(o.R[:], c[:])
-			c.SetRistrettoPoint(&e.A)
-			copy(o.A[:], c[:])
-			_ = e.S.ToBytes(o.S[:])
-			_ = e.hram.ToBytes(o.Hram[:])
-			copy(o.WitnessA[:], e.witnessA[:])
-			copy(o.WitnessR[:], e.witnessR[:])
-			o.WitnessBytes = e.witnessBytes
+func verifBytes(f reflect.Value, out []byte) bool {
+	if !f.IsValid() || !f.CanInterface() {
+		return false
+	}
+	switch x := f.Interface().(type) {
+	case curve.RistrettoPoint:
+		var c curve.CompressedRistretto
+		c.SetRistrettoPoint(&x)
+		copy(out, c[:])
+	case *curve.RistrettoPoint:
+		if x == nil {
+			return false
+		}
+		var c curve.CompressedRistretto
+		c.SetRistrettoPoint(x)
+		copy(out, c[:])
+	case scalar.Scalar:
+		return x.ToBytes(out) == nil
+	case *scalar.Scalar:
+		return x != nil && x.ToBytes(out) == nil
+	case curve.CompressedRistretto:
+		copy(out, x[:])
+	default:
+		if f.Kind() == reflect.Array && f.Type().Elem().Kind() == reflect.Uint8 && f.Len() == len(out) {
+			for i := range out {
+				out[i] = byte(f.Index(i).Uint())
+			}
+			return true
+		}
+		return false
+	}
+	return true
+}
+
+// VerifBatchState copies every field of a batch verifier.  The arithmetic fields of an entry are only
+// meaningful (and only read) when CanBeValid.  missing lists the field names that could not be read from
+// this tree (by name and expected kind); ok=false means not even the entry list could be located.
+func VerifBatchState(v *BatchVerifier) (entries []VerifBatchEntry, anyInvalid bool, missing []string, ok bool) {
+	miss := map[string]bool{}
+	note := func(n string) {
+		if !miss[n] {
+			miss[n] = true
+			missing = append(missing, n)
+		}
+	}
+	if f, found := verifField(reflect.ValueOf(v), "anyInvalid"); found && f.Kind() == reflect.Bool {
+		anyInvalid = f.Bool()
+	} else {
+		note("anyInvalid")
+	}
+	es, found := verifField(reflect.ValueOf(v), "entries")
+	if !found || es.Kind() != reflect.Slice {
+		return nil, anyInvalid, append(missing, "entries"), false
+	}
+	for i := 0; i < es.Len(); i++ {
+		e := es.Index(i)
+		if e.Kind() == reflect.Ptr {
+			e = e.Elem()
+		}
+		var o VerifBatchEntry
+		if f, found := verifField(e, "canBeValid"); found && f.Kind() == reflect.Bool {
+			o.CanBeValid = f.Bool()
+		} else {
+			note("canBeValid")
+		}
+		if o.CanBeValid {
+			for _, it := range []struct {
+				name string
+				out  []byte
+			}{{"R", o.R[:]}, {"A", o.A[:]}, {"S", o.S[:]}, {"hram", o.Hram[:]}, {"witnessA", o.WitnessA[:]}, {"witnessR", o.WitnessR[:]}, {"witnessBytes", o.WitnessBytes[:]}} {
+				f, found := verifField(e, it.name)
+				if !found || !verifBytes(f, it.out) {
+					note(it.name)
+				}
+			}
 		}
 		entries = append(entries, o)
 	}
-	return entries, v.anyInvalid
+	return entries, anyInvalid, missing, true
 }
 
-// VerifSignatureInitialised / VerifPublicKeyInitialised report whether the lazily filled fields are set.
-func VerifSignatureInitialised(s *Signature) bool { return s.s != nil }
-func VerifPublicKeyInitialised(p *PublicKey) bool { return p.point != nil }
-func VerifKeyPairInitialised(k *KeyPair) bool     { return k.sk != nil && k.pk != nil }
+func verifNonNil(x interface{}, names ...string) bool {
+	for _, n := range names {
+		f, ok := verifField(reflect.ValueOf(x), n)
+		if !ok {
+			return false // cannot tell: the public-API checks then decide alone
+		}
+		switch f.Kind() {
+		case reflect.Ptr, reflect.Slice, reflect.Map, reflect.Interface:
+			if f.IsNil() {
+				return false
+			}
+		}
+	}
+	return true
+}
+
+// VerifSignatureInitialised / VerifPublicKeyInitialised / VerifKeyPairInitialised report whether the lazily
+// filled fields are set (false when the fields cannot be located: the public-API checks then decide alone).
+func VerifSignatureInitialised(s *Signature) bool { return verifNonNil(s, "s") }
+func VerifPublicKeyInitialised(p *PublicKey) bool { return verifNonNil(p, "point") }
+func VerifKeyPairInitialised(k *KeyPair) bool     { return verifNonNil(k, "sk", "pk") }
